@@ -54,6 +54,7 @@ type inv struct {
 type hresult struct {
 	msg p9p.Message
 	err error
+	s   sret // sess mode: what the scripted Session's method returns
 }
 
 type world struct {
@@ -96,17 +97,9 @@ func payloadOf(msg p9p.Message) []byte {
 	return append([]byte{b[0]}, b[3:]...)
 }
 
-func (h gateHandler) Handle(ctx context.Context, msg p9p.Message) (p9p.Message, error) {
-	w := h.w
-	pl := payloadOf(msg)
-	w.mu.Lock()
-	if res, ok := w.filler[string(pl)]; ok {
-		// a filler request of a (bulk ...) step: answered immediately, not held, context not tracked
-		w.items = append(w.items, item{kind: itDisp, rid: w.sent[string(pl)], payload: pl})
-		w.mu.Unlock()
-		return res, nil
-	}
-	w.mu.Unlock()
+// enter records one invocation (of Handler.Handle, or in sess mode of a Session method, with the
+// context THAT call received) and returns its record; the caller then waits on the gate
+func (w *world) enter(ctx context.Context, msg p9p.Message, pl []byte) *inv {
 	iv := &inv{ctx: ctx, msg: msg, payload: pl, gate: make(chan hresult, 1), rid: -1}
 	w.mu.Lock()
 	if rid, ok := w.sent[string(pl)]; ok {
@@ -121,19 +114,35 @@ func (h gateHandler) Handle(ctx context.Context, msg p9p.Message) (p9p.Message, 
 	w.invs = append(w.invs, iv)
 	w.items = append(w.items, item{kind: itDisp, rid: iv.rid, payload: pl})
 	w.mu.Unlock()
+	return iv
+}
+
+func (h gateHandler) Handle(ctx context.Context, msg p9p.Message) (p9p.Message, error) {
+	w := h.w
+	pl := payloadOf(msg)
+	w.mu.Lock()
+	if res, ok := w.filler[string(pl)]; ok {
+		// a filler request of a (bulk ...) step: answered immediately, not held, context not tracked
+		w.items = append(w.items, item{kind: itDisp, rid: w.sent[string(pl)], payload: pl})
+		w.mu.Unlock()
+		return res, nil
+	}
+	w.mu.Unlock()
+	iv := w.enter(ctx, msg, pl)
 	r := <-iv.gate
 	if w.inner != nil {
 		m, e := w.inner.Handle(ctx, msg)
 		w.mu.Lock()
-		iv.res, iv.done = hresult{m, e}, true
+		iv.res, iv.done = hresult{msg: m, err: e}, true
 		w.mu.Unlock()
 		return m, e
 	}
 	return r.msg, r.err
 }
 
-func (h gateHandler) Stop(err error) error {
-	w := h.w
+func (h gateHandler) Stop(err error) error { return h.w.stop(err) }
+
+func (w *world) stop(err error) error {
 	w.mu.Lock()
 	w.stops++
 	w.items = append(w.items, item{kind: itStop})
